@@ -1,5 +1,6 @@
 (* C08 driver.  Cases (see harness/h_c08.cpp for the implementation side):
      itoa <v>                 itoa<int>(v) then fast_atoi<int>(text)       -> "<text> <parsed>"
+     itoaS <v>                the same under the C++ rules (UBSan build): "<text> <parsed>" | "UB-SHIFT-NEGATIVE" | "UB-SIGNED-OVERFLOW"
      utoa <v>                 itoa<unsigned>(v) then fast_atoi<unsigned>   -> "<text> <parsed>"
      atoi <i|u|s> <term> <hex text>   fast_atoi<T>(text, term)             -> "<value>"
      dtoa <p> <hex16 bits>    modp_dtoa(v, p) then fast_atof(text)         -> "<text> <hex16>" | "EXP"
@@ -56,6 +57,18 @@ let () = run_protocol (fun case impl ->
   match words case with
   | ["itoa"; v] -> int_case int_roundtrip (z_of_string v) impl
   | ["utoa"; v] -> int_case uint_roundtrip (z_of_string v) impl
+  | ["itoaS"; v] ->
+    let v = z_of_string v in
+    let (ms, om) = (match int_roundtrip_checked v with
+      | None -> ("FUEL", false)
+      | Some (t, AC_ok r) -> (show_text t ^ " " ^ string_of_z r, c08_int_strict_ok v t (Some r))
+      | Some (t, AC_shift_negative) -> ("UB-SHIFT-NEGATIVE", c08_int_strict_ok v t None)
+      | Some (t, AC_shift_overflow) -> ("UB-SHIFT-OVERFLOW", c08_int_strict_ok v t None)
+      | Some (t, AC_overflow) -> ("UB-SIGNED-OVERFLOW", c08_int_strict_ok v t None)) in
+    let oi = (match words impl with
+              | [t; p] -> (try c08_int_strict_ok v (parse_text t) (Some (z_of_string p)) with _ -> false)
+              | _ -> false) in
+    (ms, oi, om)
   | ["atoi"; ty; term; hx] ->
     let (t, lo, hi) = ity_of ty in
     let text = zlist_of_hex hx in
